@@ -115,7 +115,14 @@ func observe(call func(ch *chan events.Event) (string, error)) (tr traceRec, kin
 }
 
 func observeSlow(delay time.Duration, call func(ch *chan events.Event) (string, error)) (tr traceRec, kind string, out string, errText string) {
-	ch := make(chan events.Event)
+	var own chan events.Event
+	return observeVar(&own, delay, call)
+}
+
+// observeVar puts a FRESH channel into *slot and hands the library the address of that variable.
+func observeVar(slot *chan events.Event, delay time.Duration, call func(ch *chan events.Event) (string, error)) (tr traceRec, kind string, out string, errText string) {
+	*slot = make(chan events.Event)
+	ch := *slot
 	done := make(chan traceRec, 1)
 	go func() {
 		r := traceRec{}
@@ -151,7 +158,7 @@ func observeSlow(delay time.Duration, call func(ch *chan events.Event) (string, 
 				errText = fmt.Sprint(r)
 			}
 		}()
-		o, err := call(&ch)
+		o, err := call(slot)
 		if err != nil {
 			kind, errText = "error", err.Error()
 		} else {
@@ -218,7 +225,18 @@ type pipeCase struct {
 	p     pvariant
 	d     dvariant
 	slow  time.Duration // the consumer waits this long before taking each event (a slow listener is a legal schedule)
+	// the caller's ValidationConfiguration panics in ReportCreationTime: a panic inside the report-building stage
+	clockPanics bool
+	// the channel is passed through ONE variable that the caller reuses for every call (a field of a long-lived service)
+	reuseVar bool
 }
+
+type panickingClock struct{}
+
+func (panickingClock) ReportCreationTime() time.Time { panic("the caller's clock panics") }
+
+// the variable a long-lived caller keeps its current event channel in
+var c11SharedChannelVar chan events.Event
 
 func (c pipeCase) faults() []string {
 	eval := "ok"
@@ -230,6 +248,9 @@ func (c pipeCase) faults() []string {
 		if n != "" && n == c.p.name {
 			build = "err"
 		}
+	}
+	if c.clockPanics {
+		build = "panic"
 	}
 	return []string{c.p.parse, c.p.gen, c.p.compile, c.d.decode, c.d.norm, eval, build}
 }
@@ -244,7 +265,32 @@ func runPipeCase(e *core.Env, c pipeCase, compiled map[string]*rego.PreparedEval
 func observeCase(c pipeCase, compiled map[string]*rego.PreparedEvalQuery) (tr traceRec, kind string, out string, errText string) {
 	rc := config.DefaultReportConfiguration()
 	observe := func(call func(ch *chan events.Event) (string, error)) (traceRec, string, string, string) {
+		if c.reuseVar {
+			return observeVar(&c11SharedChannelVar, c.slow, call)
+		}
 		return observeSlow(c.slow, call)
+	}
+	if c.clockPanics {
+		var pc panickingClock
+		switch c.entry {
+		case "validate":
+			return observe(func(ch *chan events.Event) (string, error) {
+				return pkg.ValidateWithConfiguration(c.p.text, c.d.text, false, ch, pc, rc)
+			})
+		case "validateCompiled":
+			q := compiled[c.p.name]
+			return observe(func(ch *chan events.Event) (string, error) {
+				return pkg.ValidateCompiledWithConfiguration(q, c.d.text, false, ch, pc, rc)
+			})
+		case "compileThenValidate":
+			return observe(func(ch *chan events.Event) (string, error) {
+				q, err := pkg.CompileProfile(c.p.text, false, ch)
+				if err != nil {
+					return "", err
+				}
+				return pkg.ValidateCompiledWithConfiguration(q, c.d.text, false, ch, pc, rc)
+			})
+		}
 	}
 	switch c.entry {
 	case "validate":
@@ -327,12 +373,12 @@ func allPipeCases(compiledOK func(string) bool) []pipeCase {
 	cases := []pipeCase{}
 	for _, p := range profileVariants {
 		for _, d := range dataVariants {
-			cases = append(cases, pipeCase{"validate", p, d, 0}, pipeCase{"compileThenValidate", p, d, 0})
+			cases = append(cases, pipeCase{entry: "validate", p: p, d: d}, pipeCase{entry: "compileThenValidate", p: p, d: d})
 			if compiledOK(p.name) {
-				cases = append(cases, pipeCase{"validateCompiled", p, d, 0})
+				cases = append(cases, pipeCase{entry: "validateCompiled", p: p, d: d})
 			}
 		}
-		cases = append(cases, pipeCase{"compileProfile", p, dataVariants[0], 0})
+		cases = append(cases, pipeCase{entry: "compileProfile", p: p, d: dataVariants[0]})
 	}
 	return cases
 }
@@ -356,7 +402,7 @@ func compilePool(res *core.Result) map[string]*rego.PreparedEvalQuery {
 
 func C11(e *core.Env) {
 	res := e.Res
-	res.Rule = "cases = (entry point, profile variant, data variant): every failure point reachable by input (YAML error, structural error, parser panic, generator panic, Rego compile error, deny-listed built-in, decode error, JSON-LD rejection, lexical index panic, evaluation error) and success x Validate / ValidateWithConfiguration / ValidateCompiled(WithConfiguration) / CompileProfile / CompileProfile-then-ValidateCompiled on one channel, each with a recording consumer goroutine (events, close, double close, missing close); exhaustive over the pools; plus 19 runs with a listener that waits 260 ms (quick) / 700 ms (thorough) before taking each event; " +
+	res.Rule = "cases = (entry point, profile variant, data variant): every failure point reachable by input (YAML error, structural error, parser panic, generator panic, Rego compile error, deny-listed built-in, decode error, JSON-LD rejection, lexical index panic, evaluation error) and success x Validate / ValidateWithConfiguration / ValidateCompiled(WithConfiguration) / CompileProfile / CompileProfile-then-ValidateCompiled on one channel, each with a recording consumer goroutine (events, close, double close, missing close); exhaustive over the pools; plus a caller clock that panics inside report building, plus 3 rounds in which every call receives a fresh channel through ONE reused variable, plus 19 runs with a listener that waits 260 ms (quick) / 700 ms (thorough) before taking each event; " +
 		"the trace must equal the model's trace for the stage outcomes the inputs were built to produce and satisfy the executable protocol specification; milestones consumer on the same runs; non-trivial = some stage fails; distinct by (entry, profile, data)"
 	compiled := compilePool(res)
 	cases := allPipeCases(func(n string) bool { return compiled[n] != nil })
@@ -422,7 +468,7 @@ func C11(e *core.Env) {
 					dd = d
 				}
 			}
-			slowCases = append(slowCases, pipeCase{en, pv(pd[0]), dd, time.Duration(e.Pick(260, 700)) * time.Millisecond})
+			slowCases = append(slowCases, pipeCase{entry: en, p: pv(pd[0]), d: dd, slow: time.Duration(e.Pick(260, 700)) * time.Millisecond})
 		}
 	}
 	type slowObs struct {
@@ -444,6 +490,42 @@ func C11(e *core.Env) {
 		comparePipeCase(e, c, obs[i].tr, obs[i].kind, obs[i].errText)
 		res.Case("slow|"+c.entry+"|"+c.p.name+"|"+c.d.name, true)
 		res.Count("consumer=slow")
+	}
+	// a panic inside the report-building stage (the caller's clock panics): recovered into an error, channel closed
+	for _, en := range []string{"validate", "validateCompiled", "compileThenValidate"} {
+		for _, pd := range [][2]string{{"ok-min", "good"}, {"ok-levels", "bad"}} {
+			var dd dvariant
+			for _, d := range dataVariants {
+				if d.name == pd[1] {
+					dd = d
+				}
+			}
+			c := pipeCase{entry: en, p: pv(pd[0]), d: dd, clockPanics: true}
+			runPipeCase(e, c, compiled)
+			res.Case("clock-panics|"+en+"|"+pd[0]+"|"+pd[1], true)
+			res.Count("fault=report-building-panic")
+		}
+	}
+	// one channel VARIABLE reused for several calls (each call gets a fresh channel through the same variable): every one
+	// of these channels is closed
+	for round := 0; round < 3; round++ {
+		for _, en := range []string{"validate", "validateCompiled", "compileThenValidate", "compileProfile"} {
+			for _, pd := range [][2]string{{"ok-min", "good"}, {"broken-rego", "good"}, {"ok-min", "garbage"}} {
+				if en == "validateCompiled" && compiled[pd[0]] == nil {
+					continue
+				}
+				var dd dvariant
+				for _, d := range dataVariants {
+					if d.name == pd[1] {
+						dd = d
+					}
+				}
+				c := pipeCase{entry: en, p: pv(pd[0]), d: dd, reuseVar: true}
+				runPipeCase(e, c, compiled)
+				res.Case(fmt.Sprintf("reused-variable|%d|%s|%s|%s", round, en, pd[0], pd[1]), true)
+				res.Count("channel=through-a-reused-variable")
+			}
+		}
 	}
 	res.Exhaustive = true
 }
